@@ -2,7 +2,7 @@
    cannot express.  Lifts the generated symbolic obligations (Proofs/ResolveChk*.v) through rule_sound (every phase ring =
    all parameter values, every injective placement, every register) and the gate-wise fusion of the three passes. *)
 From Coq Require Import List String Bool Arith Lia FunctionalExtensionality.
-From QV Require Import Found.Circ Model.ResolveTypes Gen.Decompose Gen.Gates Model.Resolve.
+From QV Require Import Found.Circ Found.Table Model.ResolveTypes Gen.Decompose Gen.Gates Model.Resolve.
 From QV Require Import Proofs.ResolveLemmas Proofs.ResolveChkDefs.
 From QV Require Import Proofs.ResolveChk0 Proofs.ResolveChk1 Proofs.ResolveChk2 Proofs.ResolveChk3.
 Import ListNotations.
@@ -19,9 +19,9 @@ Proof. vm_compute. reflexivity. Qed.
 Lemma success_ok : forallb (fun c => negb (valid_cfg c) || forallb (check_ok c) kinds) all_cfgs = true.
 Proof. vm_compute. reflexivity. Qed.
 
-Lemma cover_ok : cover_all all_cfgs kinds = true.
+Lemma agree_ok : agree_all = true.
 Proof. vm_compute. reflexivity. Qed.
-Lemma agree_ok : forallb (fun k => forallb (fun c => agree c (canon c k) (dispatched k)) all_cfgs) kinds = true.
+Lemma outs_ok : outs_eq kinds.
 Proof. vm_compute. reflexivity. Qed.
 
 (* kernel-friendly extraction of one obligation: the lists stay abstract while the booleans are taken apart *)
@@ -37,15 +37,26 @@ Lemma obls_all : obls_ok (kslice 0 ++ kslice 1 ++ kslice 2 ++ kslice 3) = true.
 Proof.
   apply obls_ok_app; [exact chk_sem_0|]. apply obls_ok_app; [exact chk_sem_1|]. apply obls_ok_app; [exact chk_sem_2|exact chk_sem_3].
 Qed.
-Lemma obl_in l k c : obls_ok l = true -> In k l -> In c (canons k) -> check_sem c k = true.
+Lemma out_in l k r : obls_ok l = true -> In k l -> In r (outs k) -> ok_res k r = true.
 Proof.
-  unfold obls_ok. intros H Hk Hc. rewrite forallb_forall in H. specialize (H k Hk).
-  rewrite forallb_forall in H. exact (H c Hc).
+  unfold obls_ok. intros H Hk Hr. rewrite forallb_forall in H. specialize (H k Hk).
+  rewrite forallb_forall in H. exact (H r Hr).
 Qed.
-Lemma cover_in l ks k c : cover_all l ks = true -> In k ks -> In c l -> memc (canon c k) (canons k) = true.
+(* the decomposition under a canonical configuration is one of the distinct ones, or a refusal *)
+Lemma fres_in_outs ks k c : outs_eq ks -> In k ks -> In c (canons k) -> In (fres k c) (outs k) \/ fres k c = Error.
 Proof.
-  unfold cover_all. intros H Hk Hc. rewrite forallb_forall in H. specialize (H k Hk). unfold covered in H.
-  rewrite forallb_forall in H. exact (H c Hc).
+  unfold outs_eq. intros H Hk Hc.
+  pose proof (map_eq_in _ _ ks H k Hk) as E. cbv beta zeta in E.
+  assert (Hin : In (fres k c) (map (fres k) (canons k))) by (apply in_map; exact Hc).
+  rewrite E in Hin. apply in_map_iff in Hin. destruct Hin as [i [Hi _]]. rewrite <- Hi.
+  destruct (nth_in_or_default i (outs k) Error) as [Hn|Hn]; [left; exact Hn|right; exact Hn].
+Qed.
+Lemma obl_in k c : In k kinds -> In c (canons k) -> check_sem c k = true.
+Proof.
+  intros Hk Hc. unfold check_sem.
+  destruct (fres_in_outs kinds k c outs_ok Hk Hc) as [Hin|He]; [|rewrite He; reflexivity].
+  assert (Hk' : In k (kslice 0 ++ kslice 1 ++ kslice 2 ++ kslice 3)) by (rewrite <- kslices_eq; exact Hk).
+  exact (out_in _ k _ obls_all Hk' Hin).
 Qed.
 
 Lemma list_eqb_eq a : forall b, list_eqb a b = true -> a = b.
@@ -53,14 +64,31 @@ Proof.
   induction a as [|x a IH]; intros [|y b]; simpl; try discriminate; [reflexivity|].
   intros H. apply andb_prop in H. destruct H as [E H]. apply String.eqb_eq in E. rewrite E, (IH b H). reflexivity.
 Qed.
-Lemma cfg_eqb_eq a b : cfg_eqb a b = true -> a = b.
+
+(* every configuration has its canonical form among the enumerated ones - by construction *)
+Lemma dedupe_in x l : In x l -> In x (dedupe l).
 Proof.
-  destruct a as [a1 a2 a3], b as [b1 b2 b3]. unfold cfg_eqb. cbn [c2q crot celim]. intros H.
-  apply andb_prop in H. destruct H as [H H3]. apply andb_prop in H. destruct H as [H1 H2].
-  apply list_eqb_eq in H1. apply list_eqb_eq in H2. apply Bool.eqb_prop in H3. subst. reflexivity.
+  induction l as [|y l IH]; [intros []|]. intros [->|H]; simpl.
+  - destruct (existsb (list_eqb x) (dedupe l)) eqn:E; [|left; reflexivity].
+    apply existsb_exists in E. destruct E as [z [Hz Ez]]. apply list_eqb_eq in Ez. subst. exact Hz.
+  - destruct (existsb (list_eqb y) (dedupe l)); [exact (IH H)|right; exact (IH H)].
 Qed.
-Lemma memc_in c l : memc c l = true -> In c l.
-Proof. unfold memc. intros H. apply existsb_exists in H. destruct H as [x [Hx E]]. apply cfg_eqb_eq in E. subst. exact Hx. Qed.
+Lemma all_cfgs_inv c : In c all_cfgs ->
+  exists q r b, c = Cfg q r b /\ In q (sublists basis_2q_valid) /\ In r (sublists rot_names).
+Proof.
+  unfold all_cfgs. intros H. apply in_flat_map in H. destruct H as [q [Hq H]].
+  apply in_flat_map in H. destruct H as [r [Hr H]]. exists q, r.
+  destruct H as [<-|[<-|[]]]; [exists true|exists false]; auto.
+Qed.
+Lemma canon_in_canons c k : In c all_cfgs -> In (canon c k) (canons k).
+Proof.
+  intros H. destruct (all_cfgs_inv c H) as [q [r [b [-> [Hq Hr]]]]].
+  unfold canon, canons. cbn [c2q crot celim]. apply in_flat_map.
+  exists (canon2q q (dispatched k)). split.
+  - apply dedupe_in. apply (in_map (fun q => canon2q q (dispatched k))). exact Hq.
+  - apply in_map_iff. exists (b, if b then r else []). split; [reflexivity|].
+    unfold rotviews. destruct b; [right; apply (in_map (fun r => (true, r))); exact Hr|left; reflexivity].
+Qed.
 
 (* configurations that agree on what the gate observes decompose it identically *)
 Lemma stage2_first c c' l : first_2q c = first_2q c' -> stage2 c l = stage2 c' l.
@@ -73,15 +101,13 @@ Qed.
 Lemma opt_eqb_eq a b : opt_eqb a b = true -> a = b.
 Proof. destruct a, b; simpl; try discriminate; [|reflexivity]. intros E. apply String.eqb_eq in E. subst. reflexivity. Qed.
 
-Lemma agree_resolve c c' keep g p : agree c c' (gname (snd p)) = true -> pauli g = Ok p ->
+Lemma agree_resolve c c' keep g p : agree2q (c2q c) (c2q c') (gname (snd p)) = true ->
+  celim c = celim c' -> (celim c = true -> crot c = crot c') -> pauli g = Ok p ->
   resolve_gate c keep g = resolve_gate c' keep g.
 Proof.
-  unfold agree. intros H Hp.
-  apply andb_prop in H. destruct H as [H H5]. apply andb_prop in H. destruct H as [H H4].
+  unfold agree2q. intros H H4 E5 Hp.
   apply andb_prop in H. destruct H as [H H3]. apply andb_prop in H. destruct H as [H1 H2].
-  apply Bool.eqb_prop in H1. apply Bool.eqb_prop in H2. apply opt_eqb_eq in H3. apply Bool.eqb_prop in H4.
-  assert (E5 : celim c = true -> crot c = crot c').
-  { intros Ec. rewrite Ec in H5. cbn [negb orb] in H5. apply list_eqb_eq. exact H5. }
+  apply Bool.eqb_prop in H1. apply Bool.eqb_prop in H2. apply opt_eqb_eq in H3.
   unfold resolve_gate, stage1. rewrite Hp. cbn [rbind].
   assert (EU : to_universal c keep (snd p) = to_universal c' keep (snd p)).
   { unfold to_universal. rewrite <- H1.
@@ -94,19 +120,23 @@ Qed.
 
 Lemma check_sem_canon c k : In c all_cfgs -> In k kinds -> check_sem c k = check_sem (canon c k) k.
 Proof.
-  intros Hc Hk. pose proof (forallb2_in (fun k c => agree c (canon c k) (dispatched k)) kinds all_cfgs k c agree_ok Hk Hc) as A.
-  cbn beta in A. unfold check_sem. unfold dispatched in A.
+  intros Hc Hk. destruct (all_cfgs_inv c Hc) as [q [r [b [-> [Hq Hr]]]]].
+  pose proof (forallb2_in (fun k q => agree2q q (canon2q q (dispatched k)) (dispatched k)) kinds (sublists basis_2q_valid)
+                k q agree_ok Hk Hq) as A.
+  cbn beta in A. unfold check_sem, fres. unfold dispatched in A.
   destruct (pauli (generic (fst k) (snd k) 0)) as [p|] eqn:Ep.
-  - rewrite (agree_resolve c (canon c k) no_keep _ p A Ep). reflexivity.
+  - rewrite (agree_resolve (Cfg q r b) (canon (Cfg q r b) k) no_keep _ p).
+    + reflexivity.
+    + unfold canon. cbn [c2q]. unfold dispatched. rewrite Ep. exact A.
+    + reflexivity.
+    + unfold canon. cbn [celim crot]. intros ->. reflexivity.
+    + exact Ep.
   - unfold resolve_gate, stage1. rewrite Ep. reflexivity.
 Qed.
 
 Lemma check_sem_true c k : In c all_cfgs -> In k kinds -> check_sem c k = true.
 Proof.
-  intros Hc Hk. rewrite (check_sem_canon c k Hc Hk).
-  assert (Hk' : In k (kslice 0 ++ kslice 1 ++ kslice 2 ++ kslice 3)) by (rewrite <- kslices_eq; exact Hk).
-  apply (obl_in _ k (canon c k) obls_all Hk').
-  apply memc_in. exact (cover_in all_cfgs kinds k c cover_ok Hk Hc).
+  intros Hc Hk. rewrite (check_sem_canon c k Hc Hk). apply (obl_in k _ Hk). apply canon_in_canons. exact Hc.
 Qed.
 
 Lemma guarded_in {A B} (v : A -> bool) (F : A -> B -> bool) (la : list A) (lb : list B) a b :
@@ -195,7 +225,7 @@ Proof.
   pose proof (wf_retag g nc nt np Hlc Hlt Har) as Eg. fold ts in Eg. fold g0 in Eg.
   rewrite Eg in Hres. rewrite (resolve_gate_keep c keep g0 (pl ts) (gsrc g) (gname g, (nc, nt, np)) Hk eq_refl) in Hres.
   rewrite resolve_gate_nat in Hres.
-  pose proof (check_sem_true c (gname g, (nc, nt, np)) Hc Hk) as CS. unfold check_sem in CS. cbn [fst snd] in CS. fold g0 in CS.
+  pose proof (check_sem_true c (gname g, (nc, nt, np)) Hc Hk) as CS. unfold check_sem, ok_res, fres in CS. cbn [fst snd] in CS. fold g0 in CS.
   destruct (resolve_gate c no_keep g0) as [gs0|]; [|discriminate]. cbn [rmap] in Hres. injection Hres as <-.
   rewrite Eg at 2.
   change [retag (pl ts) (gsrc g) g0] with (map (retag (pl ts) (gsrc g)) [g0]).
